@@ -1,6 +1,7 @@
 pub mod chmux_wl;
 pub mod c01;
 pub mod c04;
+pub mod c06;
 
 use crate::harness::Check;
 
@@ -8,8 +9,17 @@ pub fn all() -> Vec<Check> {
     let mut v = Vec::new();
     v.extend(c01::checks());
     v.extend(c04::checks());
+    v.extend(c06::checks());
     v
 }
 
 pub const REAL_CHMUX: &str = "remoc::chmux (ChMux::run dispatcher, ports, credits, client, listener, port allocator), tokio::sync, tokio current-thread scheduler and timer wheel (paused clock)";
 pub const STUB_NET: &str = "transport = in-memory simnet link (seeded latency, back-pressure, faults); port numbers / storage keys from the run's PRNG (hook H3); task polls deferrable (hook H1)";
+
+/// Number of runs for checks that enumerate a case space (quick/thorough run count 0 in their Check).
+pub fn dynamic_runs(id: &str, tier: &str) -> u64 {
+    match id {
+        "C06" => c06::space_runs(if tier == "thorough" { 600 } else { 30 }),
+        _ => 1000,
+    }
+}
